@@ -186,7 +186,8 @@ def run_obligation(res, prop, st_name, N, findings, scenario="single", cfg=None)
             thr = thr_of.get(id(r["t"]), r["t"])
             doc = R.to_ntriples(T.reverse_triples(triples) if r["graph"] == "R" else triples)
             try:
-                rt, rs = T.run_real_pipeline(doc, r["flags"], thr, r["report_mode"], r["decimals"], r["or_flags"], r["want_shacl"], r["extra"])
+                with shims.real_code():
+                    rt, rs = T.run_real_pipeline(doc, r["flags"], thr, r["report_mode"], r["decimals"], r["or_flags"], r["want_shacl"], r["extra"])
                 reals.append(dict(tag="OK", text=rt, shacl=rs, thr=thr, run=r))
             except Exception as e:  # noqa
                 reals.append(dict(tag="EXC", text=None, shacl=None, thr=thr, run=r, err=type(e).__name__))
